@@ -245,6 +245,8 @@ def replay(job):
     sprev = {"goid": 1, "nioid": None, "gen": 0, "sdmx": 0}
     fam = None
     evals = []
+    drift = []
+    diverged = False
     for step, (op, sp) in enumerate(zip(hist, projs)):
         op = list(op[:-1])    # the last entry is the specification's outcome class (also in sp["err"])
         name = op[0]
@@ -327,11 +329,20 @@ def replay(job):
         else:
             sprev = {"goid": exp["goid"], "nioid": None, "gen": 0, "sdmx": 0}
         ncmp += 1
-        if mism:
-            what = mism[0][0]
-            viol.append({"site": "session:projection:%s:%s" % (name, what), "step": step, "op": op, "impl_vs_spec": [list(map(str, m)) for m in mism],
-                         "hist": hist[:step + 1]})
-            break   # the states have diverged: later steps are not comparable
+        if mism and not diverged:
+            # What bears on the ANSWERS is a violation: an evaluation the specification performs raises, or a generator is KEPT
+            # across a change for which the specification re-creates it (stale by construction).  Any other difference says
+            # that the code no longer follows this specification (model drift): reported, not a violation of C09 --
+            # the evaluation oracle below keeps judging the answers either way.
+            hard = [m for m in mism if (m[0] == "err" and name == "nr_call" and m[2] == "ok")
+                    or (m[0] in ("gen-recreated", "sdmx-recreated") and m[1] is False and m[2] is True)]
+            rec = {"step": step, "op": op, "impl_vs_spec": [list(map(str, m)) for m in mism], "hist": [list(o[:-1]) for o in hist[:step + 1]]}
+            if hard:
+                what = "evaluation-raises" if hard[0][0] == "err" else hard[0][0].replace("recreated", "kept-but-specification-recreates-it")
+                viol.append(dict(rec, site="session:%s:%s" % (name, what)))
+            else:
+                drift.append(dict(rec, what="%s:%s" % (name, mism[0][0])))
+            diverged = True      # the states differ from here on: later projections are not comparable
         prev = cur
     # ---- oracle: every evaluation equals the evaluation by fresh objects configured the same way
     for step, f, sp_, lvl, sch, mn, df, res in evals:
@@ -343,7 +354,7 @@ def replay(job):
             cause = "after-" + next((b for b in reversed(before) if b not in ("init_grids", "build", "nr_call")), "start")
             qty = "+".join(q for q, x in zip(("nelec", "exc", "vmat"), d) if not x <= TOL)
             viol.append({"site": "session:history-vs-fresh:%s:%s:%s" % (f, cause, qty), "step": step, "rel": d, "hist": hist[:step + 1]})
-    return {"id": job["id"], "viol": viol, "ncmp": ncmp, "nevals": len(evals), "nsteps": len(hist)}
+    return {"id": job["id"], "viol": viol, "drift": drift, "ncmp": ncmp, "nevals": len(evals), "nsteps": len(hist)}
 
 
 _W = {}
@@ -601,8 +612,14 @@ def validate_flows(ck, recs):
     ck.transitions += res["generated"]
     for rid, inv in res["rejected"]:
         rc = next(x for x in recs if x["id"] == rid)
-        ck.violation("session-trace:%s:%s" % (rc["flow"], inv.split("@")[0] if inv.startswith("stuck") else inv),
-                     {"flow": rc["flow"], "clause": inv, "events": [e["ev"] for e in rc["events"]]}, replay={"flow": rc["flow"]})
+        if inv in ("GeneratorNotStale", "EvaluationSucceeds", "GeneratorCurrent", "SDMXCurrent"):
+            ck.violation("session-trace:%s:%s" % (rc["flow"], inv), {"flow": rc["flow"], "clause": inv, "events": [e["ev"] for e in rc["events"]]},
+                         replay={"flow": rc["flow"]})
+        else:
+            # the code no longer follows the specification in a way that does not bear on the answers (class names, which
+            # objects are replaced, needless re-creation, outcome of blocked methods): model drift, reported as a note
+            ck.notes.append("KSSession model drift in flow %s: %s" % (rc["flow"], inv))
+            ck.extra.setdefault("session_model_drift", []).append({"flow": rc["flow"], "clause": inv})
     ck.extra["session_flows_validated"] = {r["flow"]: len(r["events"]) for r in recs}
     # self-test: (a) claim a generator was kept where the specification re-creates it, (b) drop the Build events
     cand = None
